@@ -16,6 +16,8 @@ import pickle
 
 from hypothesis import strategies as st
 
+import numpy as np
+
 import pymbolic
 import pymbolic.primitives as p
 from pymbolic.interop.ast import (ASTToPymbolic, to_evaluatable_python_function,
@@ -43,7 +45,7 @@ ASSUMPTIONS = [
     "the reference interpreter pbt/refsem.py gives the value of the source expression (the evaluator itself is checked against it in C02)",
     "node types a path does not implement must raise NotImplementedError/UnsupportedExpressionError (tallied as refusals, not generated on purpose for that path)",
     "numpy scalar constants are only sent through compile(); Python's ast module cannot hold them",
-    "values with a float part are compared to 1e-9 (n-ary sums/products are re-associated by the AST path)",
+    "values with a float part are compared to 1e-9 (n-ary sums/products are re-associated by the AST path); on the AST paths quotients are evaluated over Fractions, and cases where floats certainly arise (float constants, constant/constant quotients) AND feed a discontinuous operation (floor, %, //, comparison, conditional, subscript) are skipped and counted: the two association orders may land on different sides of the jump",
 ]
 HEALTH = {"compile:unlisted>=2": 0.05, "neg-const": 0.05}
 
@@ -100,7 +102,8 @@ def run_and_compare(res, what, e, thunk_for_env, env_specs, ref_tree=None):
         except Exception as exc:
             got = ("err", type(exc).__name__, exc)
         if ref[0] == "val" and got[0] == "val":
-            if not values_close(got[1], ref[1]):
+            if not values_close(got[1], ref[1]) and not _float_tainted_close(
+                    e, got[1], ref[1]):
                 res.fail(f"{what}:value-mismatch",
                          f"{e!r} at {small}: generated code gives {describe(got[1])}, "
                          f"reference {describe(ref[1])}")
@@ -124,6 +127,77 @@ def run_and_compare(res, what, e, thunk_for_env, env_specs, ref_tree=None):
                      f"reference raises {sorted(n for n, _ in ref[1])}")
             return False
     return True
+
+
+DISCONTINUOUS = (p.Remainder, p.FloorDiv, p.Comparison, p.If, p.Min, p.Max, p.LogicalNot,
+                 p.LogicalAnd, p.LogicalOr, p.BitwiseNot, p.BitwiseAnd, p.BitwiseOr,
+                 p.BitwiseXor, p.LeftShift, p.RightShift, p.Subscript)
+
+
+def _const_only(n):
+    return not walk.variables(n)
+
+
+def _float_tainted(e):
+    """floats certainly arise: a float constant, constant/constant quotient, or a
+    negative power of a constant (variables are exact ints/Fractions)"""
+    for _, n in walk.occurrences(e):
+        if isinstance(n, (float, np.floating)):
+            return True
+        if isinstance(n, p.Quotient) and _const_only(n):
+            return True
+        if isinstance(n, p.Power) and not isinstance(n.exponent, p.Expression) \
+                and not isinstance(n.exponent, bool) and n.exponent < 0 and _const_only(n.base):
+            return True
+    return False
+
+
+def _ill_conditioned(e):
+    """re-association of inexact arithmetic feeding a discontinuous operation
+    (floor, %, //, comparison, conditional ...): the two evaluation orders may
+    legitimately land on different sides of the jump"""
+    if not _float_tainted(e):
+        return False
+    return any(isinstance(n, DISCONTINUOUS) or (
+        isinstance(n, p.Call) and isinstance(n.function, p.Lookup))
+        for _, n in walk.occurrences(e))
+
+
+def _needs_fractions(e):
+    return any(isinstance(n, p.Quotient) or (
+        isinstance(n, p.Power) and not isinstance(n.exponent, p.Expression)
+        and not isinstance(n.exponent, bool) and n.exponent < 0)
+        for _, n in walk.occurrences(e))
+
+
+def _fractionize(env_specs):
+    out = []
+    for es in env_specs:
+        e2 = dict(es)
+        for k in ("x", "y", "z", "k", "m"):
+            if isinstance(e2.get(k), int) and not isinstance(e2[k], bool):
+                e2[k] = ["Frac", e2[k], 1]
+        out.append(e2)
+    return out
+
+
+def _float_tainted_close(e, a, b):
+    """An *integer* result computed through floats (math.floor(x/x*big), float
+    constants) inherits the rounding of a re-associated product: compare such
+    numbers to 1e-9 as well.  Only when the tree can produce floats at all."""
+    from numbers import Number
+    if not (isinstance(a, Number) and isinstance(b, Number)) or isinstance(a, bool) \
+            or isinstance(b, bool):
+        return False
+    tainted = any(isinstance(n, (p.Quotient, float, np.floating))
+                  or (isinstance(n, p.Power) and not isinstance(n.exponent, int))
+                  for _, n in walk.occurrences(e))
+    if not tainted:
+        return False
+    try:
+        return abs(a - b) <= 1e-9 * max(1, abs(a), abs(b))
+    except Exception:
+        return False
 
 
 def _classify(res, spec, e):
@@ -253,9 +327,15 @@ def check_toast(spec):
                         f"to_python_ast({e!r}) does not unparse to valid Python: "
                         f"{type(exc).__name__}: {exc}")
     names = free_names(e)
+    if _ill_conditioned(e):
+        res.label("ill-conditioned-float-case")
+        return res.skip("re-associated-floats-under-discontinuous-operation")
+    boxes = env_box(names)
+    if _needs_fractions(e):
+        boxes = _fractionize(boxes)   # exact x/y: the AST path re-associates n-ary nodes
     run_and_compare(res, "toast", e,
                     lambda env: eval(code, {"__builtins__": {}}, dict(env)),
-                    env_box(names))
+                    boxes)
     # and back: ASTToPymbolic(to_python_ast(e)) means the same
     try:
         back = ASTToPymbolic()(tree)
@@ -265,7 +345,7 @@ def check_toast(spec):
         res.fail("fromast:raised:" + exc_site(exc),
                  f"ASTToPymbolic()(to_python_ast({e!r})) raised {type(exc).__name__}: {exc}")
     else:
-        for env_spec in env_box(names)[:12]:
+        for env_spec in boxes[:12]:
             env = envs.build_env(env_spec)
             env["math"] = math
             try:
@@ -314,13 +394,19 @@ def check_tofunc(spec):
         return res.fail("tofunc:source-does-not-execute",
                         f"{src!r}: {type(exc).__name__}: {exc}")
     names = free_names(e)
+    if _ill_conditioned(e):
+        res.label("ill-conditioned-float-case")
+        return res.skip("re-associated-floats-under-discontinuous-operation")
 
     def thunk(env):
         missing = [n for n in names if n not in env]
         if missing:
             raise NameError(missing[0])
         return f(**{n: env[n] for n in names})
-    run_and_compare(res, "tofunc", e, thunk, env_box(names))
+    boxes = env_box(names)
+    if _needs_fractions(e):
+        boxes = _fractionize(boxes)
+    run_and_compare(res, "tofunc", e, thunk, boxes)
     res.sample = {"expr": repr(e)[:300], "source": src[:300]}
     return res
 
